@@ -9,6 +9,7 @@
 (*   vrow : a |-> i, rs |-> <<r_1..r_n>>      r_j = _rpm_vercmp(strs[i], strs[j])            *)
 (*   erow : a |-> i, lc |-> class of the left operands, rc |-> class of the right operands   *)
 (*          (InstalledRpm, its subclass YumListRpm, a subclass of the driver's own),         *)
+(*          la, ra |-> their architectures ("" = none),                                      *)
 (*          cmp |-> <<..>>, ops |-> <<..>>                                                   *)
 (*                cmp[j] = rpm_version_compare(evrs[i], evrs[j]),                            *)
 (*                ops[j] = <<x<y, x==y, x>y, x<=y, x>=y, x!=y>> of the InstalledRpm objects  *)
@@ -18,7 +19,9 @@
 (*          pk |-> <<indices into evrs>> in the order given to it, n |-> how many of them it *)
 (*                holds (-1: building it raised), mx / mn / gmx / gmn |-> positions in pk of *)
 (*                the objects returned by newest / oldest / get_max / get_min                *)
-(*                (0: none of the packages, -1: raised)                                      *)
+(*                (0: none of the packages, -1: raised).  A holder that was asked, then       *)
+(*                given more packages (via "<kind>+reparse|append|insert") and asked again   *)
+(*                is a second sel event: pk is what it lists NOW                             *)
 (*   table: a |-> i, b |-> j, r |-> expected  (upstream rpmvercmp.at row: validates the      *)
 (*                transcription; a rejection is a machinery failure, see p_rpm.py)           *)
 (* An observed exception is recorded as result 99 (ops: the empty tuple).   *)
@@ -39,7 +42,13 @@ E(i) == T.evrs[i]
 
 (* classes the compared package objects are built from: the answer must not depend on them *)
 PkgClasses == {"InstalledRpm", "YumListRpm", "OwnRpm"}
-Pairing == Ev.lc \o "-vs-" \o Ev.rc
+(* architecture of the operands ("" = none): RPM's comparison is on epoch:version-release, the       *)
+(* architecture takes no part in it (reading, notes/C13.md)                                          *)
+PkgArchs == {"", "x86_64", "i686", "noarch"}
+ArchTxt(a) == IF a = "" THEN "noarch-field" ELSE a
+Pairing == Ev.lc \o "-vs-" \o Ev.rc \o
+           (IF Ev.la = "x86_64" /\ Ev.ra = "x86_64" THEN ""
+            ELSE IF Ev.la = Ev.ra THEN ":same-arch" ELSE ":arch-" \o ArchTxt(Ev.la) \o "-vs-" \o ArchTxt(Ev.ra))
 
 VRowOK  == \A j \in DOMAIN T.strs : Ev.rs[j] = VerCmp(S(Ev.a), S(j))
 ERowOK  == \A j \in DOMAIN T.evrs :
@@ -54,6 +63,7 @@ WellFormed ==
     CASE Ev.ev = "vrow"  -> Ev.a \in DOMAIN T.strs /\ Len(Ev.rs) = Len(T.strs)
       [] Ev.ev = "erow"  -> Ev.a \in DOMAIN T.evrs /\ Len(Ev.cmp) = Len(T.evrs) /\ Len(Ev.ops) = Len(T.evrs)
                             /\ Ev.lc \in PkgClasses /\ Ev.rc \in PkgClasses
+                            /\ Ev.la \in PkgArchs /\ Ev.ra \in PkgArchs
                             /\ \A j \in DOMAIN T.evrs : EpochOK(E(j).e)
       [] Ev.ev = "sel"   -> Len(Ev.pk) > 0 /\ \A i \in DOMAIN Ev.pk : Ev.pk[i] \in DOMAIN T.evrs /\ EpochOK(E(Ev.pk[i]).e)
       [] Ev.ev = "table" -> Ev.a \in DOMAIN T.strs /\ Ev.b \in DOMAIN T.strs
